@@ -55,10 +55,20 @@ def gen_case(rng, classes):
             A = np.eye(3) + 0.2 * rng.normal(size=(3, 3))
             if np.linalg.det(A) < 0:
                 A[0] *= -1
+            if rng.random() < 0.5:  # same base, other height: the instances share coordinate entries
+                A = np.diag([1.0, 1.0, float(rng.uniform(0.4, 2.5))])
             s["vertices"] = (np.array(base["vertices"]) @ A.T).tolist()
             s["faces"] = base["faces"]
         inst.append(s)
-    obs = (rng.normal(size=(n, 3)) * 2.5).tolist()
+    obs = rng.normal(size=(n, 3)) * 2.5
+    if cls in objs.MAGNETS:
+        from vfw.props.c06 import interior_point
+        from vfw.oracles import geometry as G
+
+        for i in range(n):
+            if rng.random() < 0.4:
+                obs[i] = G.to_global(inst[i], interior_point(inst[i]))[0]
+    obs = obs.tolist()
     return {"cls": cls, "instances": inst, "observers": obs, "field": str(rng.choice(list("BHJM"))),
             "form": str(rng.choice(FORMS)), "squeeze": bool(rng.random() < 0.5)}
 
